@@ -155,17 +155,24 @@ def _cmp_shape(inp, io, mo):
     if io == mo:
         return None
     if inp["g"]["type"] in ("TimeInterval", "BoundingBox") and "val" in io and "val" in mo:
+        # the rectangle: the property pins kind and corners, not which corner shapely starts at nor
+        # whether a degenerate rectangle repeats a corner
         a, b = io["val"], mo["val"]
         if (a.get("kind") == b.get("kind") == "Polygon" and a.get("holes") == b.get("holes") == []
                 and sorted(set(map(tuple, a["shell"]))) == sorted(set(map(tuple, b["shell"])))
-                and len(a["shell"]) == len(b["shell"]) and a["shell"][0] == a["shell"][-1]):
+                and 4 <= len(a["shell"]) <= 6 and a["shell"][0] == a["shell"][-1]):
             return None
     return "shapely conversion differs from the model (kind / structure / coordinates)"
 
 
 def _num_eq_round_once(a, b):
-    """a: impl rational string, b: model rational string; equal after one correct rounding"""
-    return a == b or round_once_eq(frac(b), float(frac(a)))
+    """a: impl rational string, b: model rational string; equal after one correct rounding, or within
+    2 ulp of that (an algebraically equal but re-associated formula, e.g. `s + (e - s) / 2` for the
+    midpoint, rounds differently; the property does not pin the rounding)"""
+    if a == b or round_once_eq(frac(b), float(frac(a))):
+        return True
+    fa, fb = float(frac(a)), float(frac(b))
+    return abs(fa - fb) <= 2 * math.ulp(fb)
 
 
 def _cmp_features_free(inp, io, mo):
@@ -417,37 +424,53 @@ def _build(gj, how):
     return gen_geom.to_data(gj)
 
 
-def _call_on(geom, call):
-    """one operation on an existing geometry object (adapters of the single ops, object passed in)"""
+def _call_raw(geom, call):
+    """one operation on an existing geometry object: the raw result"""
     from soundevent.geometry import compute_bounds, get_geometry_point, geometry_to_shapely
     from soundevent.geometry.features import compute_geometric_features
     o = call["op"]
     if o == "bounds":
-        return {"val": [rat(x) for x in compute_bounds(geom)]}
+        return compute_bounds(geom)
     if o == "features":
-        return {"val": [[_term_name(f.term), rat(f.value)] for f in compute_geometric_features(geom)]}
+        return compute_geometric_features(geom)
     if o == "point":
-        q = get_geometry_point(geom, call["pos"])
-        return {"val": [rat(q[0]), rat(q[1])]}
+        return get_geometry_point(geom, call["pos"])
     if o == "shape":
-        return {"val": _shape_json(geometry_to_shapely(geom))}
+        return geometry_to_shapely(geom)
     raise AssertionError("unknown session call")
+
+
+def _canon_raw(call, r):
+    o = call["op"]
+    if o == "bounds":
+        return {"val": [rat(x) for x in r]}
+    if o == "features":
+        return {"val": [[_term_name(f.term), rat(f.value)] for f in r]}
+    if o == "point":
+        return {"val": [rat(r[0]), rat(r[1])]}
+    return {"val": _shape_json(r)}
 
 
 def _impl_session(inp):
     """all operations on ONE geometry object, interleaved with the same operations on another
-    geometry (state carried between calls, caches, mutation of the argument all show up here);
-    the last entry is the object's own coordinates after all calls"""
+    geometry; the raw results are kept until every call has been made and only then read (state
+    carried between calls, caches, shared result objects, mutation of the argument all show up
+    here); the last entry is the object's own coordinates after all calls"""
     geom = _build(inp["g"], inp.get("build", "validate"))
     other = gen_geom.to_data(inp["other"]) if inp.get("other") else None
-    outs = []
-    for call in inp["calls"]:
-        if other is not None:
-            try:
-                _call_on(other, call)
-            except Exception:  # noqa: BLE001
-                pass
-        outs.append(_call_on(geom, call))
+    raw = []
+    for i, call in enumerate(inp["calls"]):
+        def on_other():
+            if other is not None:
+                try:
+                    _call_raw(other, call)
+                except Exception:  # noqa: BLE001
+                    pass
+        if i % 2 == 0:
+            on_other()
+        raw.append(_call_raw(geom, call))
+        on_other()
+    outs = [_canon_raw(c, r) for c, r in zip(inp["calls"], raw)]
     outs.append(gen_geom.from_data(geom))
     return {"val": outs}
 
@@ -469,6 +492,68 @@ def _cmp_session(inp, io, mo):
             return f"call #{i} {what} on a shared object (build={inp.get('build', 'validate')}) differs from the model"
         return None
     return "session: implementation and model disagree"
+
+
+MUTATIONS = ["assign", "copy_update", "deep_copy_update", "deepcopy_assign", "copy_assign"]
+
+
+def _impl_history(inp):
+    """a sequence of steps on one geometry object: queries, and re-assignment of the coordinates /
+    model_copy(update=...) / copy + assignment with new valid coordinates of the same type; every
+    query must answer for the coordinates the object has at that step (geometries are not frozen,
+    so nothing may be remembered across a change of the coordinates)"""
+    import copy
+    obj, outs = None, []
+    for step in inp["steps"]:
+        do = step["do"]
+        if do == "query":
+            raw = [_call_raw(obj, c) for c in step["calls"]]
+            outs.append([_canon_raw(c, r) for c, r in zip(step["calls"], raw)] + [gen_geom.from_data(obj)])
+            continue
+        if do == "new":
+            obj = _build(step["g"], step.get("build", "validate"))
+            continue
+        coords = gen_geom.coords_float(step["g"])
+        if do == "assign":
+            obj.coordinates = coords
+        elif do == "copy_update":
+            obj = obj.model_copy(update={"coordinates": coords})
+        elif do == "deep_copy_update":
+            obj = obj.model_copy(update={"coordinates": coords}, deep=True)
+        elif do == "deepcopy_assign":
+            obj = copy.deepcopy(obj)
+            obj.coordinates = coords
+        elif do == "copy_assign":
+            obj = copy.copy(obj)
+            obj.coordinates = coords
+        else:
+            raise AssertionError("unknown history step")
+    return {"val": outs}
+
+
+def _cmp_history(inp, io, mo):
+    if io == mo:
+        return None
+    if "val" in io and "val" in mo and len(io["val"]) == len(mo["val"]):
+        queries = [s_ for s_ in inp["steps"] if s_["do"] == "query"]
+        k = 0
+        trail = []
+        for s_ in inp["steps"]:
+            if s_["do"] != "query":
+                trail.append(s_["do"])
+                continue
+            a, b = io["val"][k], mo["val"][k]
+            k += 1
+            for i, (x, y) in enumerate(zip(a, b)):
+                if x == y:
+                    continue
+                what = s_["calls"][i] if i < len(s_["calls"]) else "the coordinates of the object"
+                if isinstance(what, dict) and what.get("op") == "shape" and _cmp_shape({"g": b[-1]}, x, y) is None:
+                    continue
+                return (f"after {' -> '.join(trail)}: {what} does not answer for the coordinates the object has now "
+                        f"(query #{k} of {len(queries)})")
+        return None
+    return "history: implementation and model disagree"
 
 
 class _Foreign:
@@ -531,7 +616,8 @@ OPS = {
     "centroid": Op("centroid", _impl_centroid, to_model=_to_model_centroid, compare=_cmp_centroid,
                    determined=False, mode="tolerance"),
     "session": Op("session", _impl_session, to_model=_to_model_session, compare=_cmp_session),
-    "dispatch": Op("dispatch", _impl_dispatch, nontrivial=lambda inp, out: True),
+    "history": Op("history", _impl_history, compare=_cmp_history),
+    "dispatch": Op("dispatch", _impl_dispatch, nontrivial=lambda inp, out: True, determined=False),
 }
 
 
@@ -591,8 +677,10 @@ def _table_obligations(ctx):
                        f"(fun p => SE.Bnd.splitDash p.1 == p.2) = true := by decide\n", {"op": "point"})
     table = getattr(F, "_COMPUTE_FEATURES", None)
     if not isinstance(table, dict):
-        ctx.fail("obligation", "feature_table_keys", detail="`_COMPUTE_FEATURES` table not found in features.py",
-                 extra={"op": "features"})
+        # a private name: its absence is not a failure, the dispatch is observed through the public function
+        # (ties ext_features_<type>, ext_features_unknown_type and the `dispatch` correspondence)
+        ctx.note("`_COMPUTE_FEATURES` is not a dict in features.py: key-table obligation not generated, "
+                 "dispatch observed through compute_geometric_features only")
     else:
         keys = [str(k) for k in table.keys()]
         ctx.obligation("feature_table_keys",
@@ -821,42 +909,66 @@ _FEAT_SIMP = ("simp [SE.Bnd.features, SE.Bnd.shapeFeatures, SE.Bnd.boundsFeature
               "SE.Bnd.fHigh, SE.Bnd.fBandwidth, SE.Bnd.fSegments]")
 
 
+def _ops_patch(ops, b, centroid=None, surface=None):
+    """operations.py with compute_bounds / geometry_to_shapely / the shapely functions it may use
+    replaced by symbolic stand-ins (by identity of the objects, however they were imported)"""
+    import shapely
+    attrs = {"point_on_surface": lambda g, **kw: g.point_on_surface(),
+             "centroid": lambda g, **kw: g.centroid,
+             "bounds": lambda g, **kw: g.bounds}
+    by_id = []
+    conv = getattr(ops, "geometry_to_shapely", None)
+    if conv is not None:
+        by_id.append((conv, lambda g: _StubShape(g._bounds, centroid, surface)))
+    for n, f in attrs.items():
+        real = getattr(shapely, n, None)
+        if real is not None:
+            by_id.append((real, f))
+    return by_id, [shapely], attrs
+
+
 def _symbolic_ties(ctx):
     import soundevent.geometry.operations as ops
     import soundevent.geometry.features as F
     BV = ["st", "lo", "en", "hi"]
     b = tuple(Sym.var(n) for n in BV)
-    # --- get_geometry_point with compute_bounds stubbed: every name of the literal and unknown ones
+    # --- get_geometry_point with compute_bounds (and the conversion) stubbed: every name of the
+    #     literal and unknown ones
     G = _mk_geom("BoundingBox", list(b), b)
-    orig = ops.compute_bounds
-    ops.compute_bounds = lambda g: g._bounds
-    try:
+    by_id, mods, attrs = _ops_patch(ops, b)
+    cb = getattr(ops, "compute_bounds", None)
+    with _Patched(ops, by_id + ([(cb, lambda g: g._bounds)] if cb is not None else []), mods, attrs):
         positions = [p for p in (_positions(ops) or BOUNDS_POS) if p not in LIB_POS]
         for pos in positions + UNKNOWN_POS[:6]:
             name = "ext_point_" + "".join(c if c.isalnum() else "_" for c in pos) + ("" if pos in positions else "_unknown")
             ctx.sym_tie(name, lambda pos=pos: tuple(ops.get_geometry_point(G, pos)), BV, "Rat × Rat",
                         f'(SE.Bnd.pointAt (fun _ => (0, 0)) {_lean_strs([pos])[1:-1]} ⟨st, lo, en, hi⟩).toOption',
-                        tactic=f"unfold {name}\n  first | rfl | decide | (simp [SE.Bnd.pointAt, SE.Bnd.positionNames]; done)",
+                        tactic=f"unfold {name}\n  first | rfl | decide | (simp [SE.Bnd.pointAt, SE.Bnd.positionNames]; done)"
+                               f" | (simp [SE.Bnd.pointAt, SE.Bnd.positionNames, Except.toOption, SE.Bnd.splitDash, "
+                               f"SE.Bnd.splitAux, SE.Bnd.timeSel, SE.Bnd.freqSel] <;> (try constructor) <;> ring)",
                         meta={"op": "point"}, catch=(ValueError, KeyError))
-    finally:
-        ops.compute_bounds = orig
     ctx.stage("symbolic-ties-delegation", _delegation_ties, ctx)
     ctx.stage("symbolic-ties-conversion", _conversion_ties, ctx)
-    # --- every entry of _COMPUTE_FEATURES, through the table (a wrong row is a wrong function)
+    # --- compute_geometric_features on every type (through the public function: a wrong row of the
+    #     dispatch table is a wrong function)
     t, s, e, lo_, hi_ = Sym.var("t"), Sym.var("s"), Sym.var("e"), Sym.var("l"), Sym.var("h")
     closed = {
         "TimeStamp": (["t"], t, "SE.Bnd.features (.timeStamp t)"),
         "TimeInterval": (["s", "e"], (s, e), "SE.Bnd.features (.timeInterval s e)"),
         "BoundingBox": (["s", "l", "e", "h"], (s, lo_, e, hi_), "SE.Bnd.features (.boundingBox s l e h)"),
     }
-    table = getattr(F, "_COMPUTE_FEATURES", None)
-    if not isinstance(table, dict):
-        ctx.fail("obligation", "ext_features", detail="`_COMPUTE_FEATURES` table not found", extra={"op": "features"})
-        return
-    orig_feat, orig_conv = getattr(F, "Feature", None), getattr(F, "geometry_to_shapely", None)
-    F.Feature = lambda term, value: (term, value)
-    F.geometry_to_shapely = lambda g: _StubShape(g._bounds)
-    try:
+    import shapely
+    feat = getattr(F, "Feature", None)
+    conv = getattr(F, "geometry_to_shapely", None)
+    by_id = [(feat, lambda term=None, value=None, **kw: (term, value))]
+    if conv is not None:
+        by_id.append((conv, lambda g: _StubShape(g._bounds)))
+    attrs = {"bounds": lambda g, **kw: g.bounds, "get_num_geometries": lambda g, **kw: len(g.geoms)}
+    for n, f in attrs.items():
+        real = getattr(shapely, n, None)
+        if real is not None:
+            by_id.append((real, f))
+    with _Patched(F, by_id, [shapely], attrs):
         for key in gen_geom.TYPES:
             name = "ext_features_" + key
             if key in closed:
@@ -866,39 +978,29 @@ def _symbolic_ties(ctx):
                 V, coords = BV, None
                 mterm = f'some (SE.Bnd.shapeFeatures "{key}" ⟨st, lo, en, hi⟩ 3)'
             geo = _mk_geom(key, coords, b)
-            symx.sym_tie(ctx, name, lambda key=key, geo=geo: F._COMPUTE_FEATURES[key](geo), V,
+            symx.sym_tie(ctx, name, lambda geo=geo: F.compute_geometric_features(geo), V,
                          "Option (List (String × Rat))", mterm, _feature_leaf,
-                         tactic=f"unfold {name}\n  first | rfl | ({_FEAT_SIMP}; done) | ({_FEAT_SIMP}; grind)",
+                         tactic=f"unfold {name}\n  first | rfl | ({_FEAT_SIMP}; done) | ({_FEAT_SIMP} <;> grind)",
                          meta={"op": "features"}, catch=(ValueError, NotImplementedError))
-        # compute_geometric_features dispatches on `geometry.type` through the table
-        geo = _mk_geom("BoundingBox", (s, lo_, e, hi_), b)
-        symx.sym_tie(ctx, "ext_features_dispatch", lambda: F.compute_geometric_features(geo),
-                     ["s", "l", "e", "h"], "Option (List (String × Rat))", "SE.Bnd.features (.boundingBox s l e h)",
-                     _feature_leaf, tactic="unfold ext_features_dispatch\n  first | rfl | (simp [SE.Bnd.features]; done)",
-                     meta={"op": "features"}, catch=(ValueError, NotImplementedError))
-    finally:
-        F.Feature, F.geometry_to_shapely = orig_feat, orig_conv
+        # an unknown type tag is NotImplementedError
+        foreign = _StubGeometry("Circle", None, b)
+        symx.sym_tie(ctx, "ext_features_unknown_type", lambda: F.compute_geometric_features(foreign), BV,
+                     "Option (List (String × Rat))",
+                     '(match SE.Bnd.dispatch "Circle" with | .ok _ => some [] | .error _ => none)', _feature_leaf,
+                     tactic="unfold ext_features_unknown_type\n  first | rfl | decide | (simp [SE.Bnd.dispatch, SE.Bnd.featureTypes]; done)",
+                     meta={"op": "dispatch"}, catch=(NotImplementedError,))
 
 
 def _delegation_ties(ctx):
     """compute_bounds returns the `bounds` of the converted shape; the `centroid` / `point_on_surface`
     branches of get_geometry_point return shapely's answer for the converted shape, unchanged"""
-    import shapely
     import soundevent.geometry.operations as ops
     BV = ["st", "lo", "en", "hi"]
     b = tuple(Sym.var(n) for n in BV)
     cx, cy, px, py = (Sym.var(n) for n in ("cx", "cy", "px", "py"))
-    conv = getattr(ops, "geometry_to_shapely", None)
-    attrs = {"point_on_surface": lambda g, **kw: g.point_on_surface(),
-             "centroid": lambda g, **kw: g.centroid,
-             "bounds": lambda g, **kw: g.bounds}
-    by_id = [(conv, lambda g: _StubShape(g._bounds, (cx, cy), (px, py)))]
-    for n, f in attrs.items():
-        real = getattr(shapely, n, None)
-        if real is not None:
-            by_id.append((real, f))
+    by_id, mods, attrs = _ops_patch(ops, b, (cx, cy), (px, py))
     G = _mk_geom("BoundingBox", list(b), b)
-    with _Patched(ops, by_id, [shapely], attrs):
+    with _Patched(ops, by_id, mods, attrs):
         ctx.sym_tie("ext_compute_bounds", lambda: tuple(ops.compute_bounds(G)), BV, "Rat × Rat × Rat × Rat",
                     "some (st, lo, en, hi)", tactic="unfold ext_compute_bounds\n  first | rfl | (simp; done)",
                     meta={"op": "bounds"}, catch=(ValueError, KeyError))
@@ -943,6 +1045,12 @@ def _conversion_ties(ctx):
         "MultiPolygon": (n4 + nh + nq + n3, [[p4, ph], [pq], [p3]],
                          f"(.multiPolygon [[{L(p4)}, {L(ph)}], [{L(pq)}], [{L(p3)}]])"),
     }
+    # what the data model's validators guarantee about the order of the stored numbers (the symbolic
+    # inputs range over validated geometries only: a branch that no valid geometry takes is not a difference)
+    hyps = {
+        "TimeInterval": ["s ≤ e"], "BoundingBox": ["s ≤ e", "l ≤ h"],
+        "LineString": ["a0t ≤ a2t"], "MultiLineString": ["a0t < a2t", "b0t < b3t"],
+    }
     simp = ("simp [SE.Bnd.toShape, SE.Bnd.ShCall.realize, SE.Bnd.polyOf, SE.Bnd.boxRing, SE.MAXF]")
     with _Patched(conv, by_id, [shapely, sg], rec):
         for key in gen_geom.TYPES:
@@ -951,8 +1059,8 @@ def _conversion_ties(ctx):
             geo = _mk_geom(key, coords)
             symx.sym_tie(ctx, name, lambda geo=geo: conv.geometry_to_shapely(geo), V, "Option SE.Bnd.Shape",
                          f"some (SE.Bnd.toShape {gterm})", _call_leaf,
-                         tactic=f"unfold {name}\n  first | rfl | ({simp}; done) | ({simp} <;> grind)",
-                         meta={"op": "shape"}, catch=(ValueError, NotImplementedError))
+                         tactic=f"unfold {name}\n  first | rfl | ({simp}; done) | ({simp} <;> grind) | (split <;> {simp} <;> grind)",
+                         meta={"op": "shape"}, catch=(ValueError, NotImplementedError), hyps=hyps.get(key, ()))
         # an unknown type tag is NotImplementedError (model: `dispatch`)
         foreign = _StubGeometry("Circle", [t, l_], None)
         symx.sym_tie(ctx, "ext_conversion_unknown_type", lambda: conv.geometry_to_shapely(foreign), ["t", "l"],
@@ -1003,6 +1111,11 @@ def special_geometries():
         _g("MultiPolygon", [[[[0, 0], [8, 0], [8, 8], [0, 8], [0, 0]], [[2, 2], [4, 2], [4, 4], [2, 4], [2, 2]]],
                             [[[9, 1], [12, 1], [12, 9], [9, 1]]], [[[13, 0], [14, 0], [14, 1], [13, 0]]]]),
         _g("MultiPolygon", [[[[9, 1], [12, 1], [12, 9], [9, 1]], [[0, 20], [1, 20], [1, 21], [0, 20]]]]),  # hole outside
+        # review: lines that return to their first vertex, repeated vertices, boxes / intervals on the axes
+        _g("LineString", [[1, 2], [3, 5], [1, 2]]), _g("LineString", [[1, 2], [1, 2], [3, 4], [3, 4], [5, 1]]),
+        _g("MultiLineString", [[[1, 2], [2, 2], [2, 2]], [[2, 3], [5, 7]]]),
+        _g("BoundingBox", [1, 0, 2, 0]), _g("BoundingBox", [0, 0, 2, 3]), _g("BoundingBox", [0, 5, 0, 9]),
+        _g("TimeInterval", [0, H]), _g("MultiPoint", [[0, 0], [0, 0], [0, 0]]),
     ]
     return [_norm(g) for g in out]
 
@@ -1199,6 +1312,40 @@ def _session_stage(ctx):
     ctx.run_cases(OPS["session"], cases)
 
 
+def histories(rng, n):
+    """per type: a fresh object, then changes of its coordinates (same type, new valid values) through
+    every route the data model offers, with queries before and after each change"""
+    out = []
+    for i in range(n):
+        ty = gen_geom.TYPES[i % len(gen_geom.TYPES)]
+        gs = [_norm(gen_geom.gen_valid(rng, ty, tmax=8.0, fmax=8.0, k=3)) for _ in range(4)]
+        if gs[1]["type"] != ty or any(g["type"] != ty for g in gs):
+            continue      # gen_valid fell back to a box
+        def query():
+            calls = [{"op": "bounds"}, {"op": "features"}, {"op": "shape"}]
+            calls += [{"op": "point", "pos": p_} for p_ in rng.sample(BOUNDS_POS, 3)]
+            rng.shuffle(calls)
+            return {"do": "query", "calls": calls[:rng.randint(1, len(calls))]}
+        steps = [{"do": "new", "g": gs[0], "build": rng.choice(BUILDS)}]
+        if rng.random() < 0.85:
+            steps.append(query())
+        for g in gs[1:rng.randint(2, 4)]:
+            steps.append({"do": MUTATIONS[(i + len(steps)) % len(MUTATIONS)] if rng.random() < 0.7
+                          else rng.choice(MUTATIONS), "g": g})
+            steps.append(query())
+        out.append({"steps": steps})
+    return out
+
+
+def _history_stage(ctx):
+    hs = histories(ctx.rng, ctx.budget(270, 2700))
+    for h in hs:
+        for s_ in h["steps"]:
+            if s_["do"] not in ("query", "new"):
+                ctx.tally("history:" + s_["do"])
+    ctx.run_cases(OPS["history"], hs)
+
+
 def _dispatch_stage(ctx):
     ctx.run_cases(OPS["dispatch"], [{"tag": t_} for t_ in gen_geom.TYPES + UNKNOWN_TAGS])
     ctx.exhaustive["type dispatch"] = f"the nine type tags and {len(UNKNOWN_TAGS)} foreign tags x both dispatching functions"
@@ -1215,6 +1362,7 @@ def run(ctx):
     ctx.stage("ogc-invalid-polygons", _invalid_stage, ctx)
     ctx.stage("centroid-correspondence", _centroid_stage, ctx)
     ctx.stage("sessions", _session_stage, ctx)
+    ctx.stage("histories", _history_stage, ctx)
     ctx.stage("dispatch", _dispatch_stage, ctx)
 
 
